@@ -36,7 +36,7 @@ ASSUMPTIONS = [
     "positional-only parameters are unsupported by the library and are not generated",
 ]
 TY = {
-    "int": ("int", st.integers(-3, 9)), "str": ("str", st.sampled_from(["a", "b c", "null", "1", "-x", "", "1e3"])), "float": ("float", st.sampled_from([0.5, 1.0, -2.5])),
+    "int": ("int", st.integers(-3, 9)), "str": ("str", st.sampled_from(["a", "b c", "null", "1", "-x", "", "1e3"])), "float": ("float", st.sampled_from([0.5, 1.0, -2.5, 1000.0, 200.0, 0.001, 1e22])),
     "bool": ("bool", st.booleans()), "optint": ("Optional[int]", st.one_of(st.none(), st.integers(0, 9))), "optstr": ("Optional[str]", st.one_of(st.none(), st.sampled_from(["a", "b"]))),
     "listint": ("List[int]", st.lists(st.integers(0, 9), max_size=3)), "dict": ("Dict[str, int]", st.dictionaries(st.sampled_from(["p", "q"]), st.integers(0, 9), max_size=2)),
     "tuple": ("Tuple[int, str]", st.tuples(st.integers(0, 9), st.sampled_from(["a", "b"])).map(list)), "lit": ("Literal['x', 'y', 3]", st.sampled_from(["x", "y", 3])),
@@ -98,6 +98,8 @@ def case_strategy():
             # one shared --config in front of the sub-command names, holding a section for every component (the siblings' too)
             case["config_level"] = "top"
             case["siblings"] = {n: draw(assignment(sg, "config")) for n, sg in sigs.items() if n != select[-1]}
+        elif kind != "function" and draw(st.integers(0, 3)) == 0:
+            case["config_level"] = "select"  # nothing but one --config: it names the component(s) and holds every value
         return case
 
     def class_case(draw):
@@ -109,6 +111,8 @@ def case_strategy():
         if len(methods) > 1 and draw(st.integers(0, 2)) == 0:
             case["config_level"] = "top"
             case["siblings"] = {n: draw(assignment(sg, "config")) for n, sg in methods.items() if n != m}
+        elif draw(st.integers(0, 3)) == 0:
+            case["config_level"] = "select"
         return case
 
     return st.sampled_from(["function", "function", "list", "dict", "class", "class"]).flatmap(
@@ -142,7 +146,12 @@ def source(case):
     return "\n".join(lines) + "\n"
 
 
+SPELLED = {1000.0: "1e3", 200.0: "2E2", 0.001: "1e-3", 1e22: "1e+22"}  # command line spellings of floats other than repr's
+
+
 def raw(v):
+    if isinstance(v, float) and v in SPELLED:
+        return SPELLED[v]
     return v if isinstance(v, str) else json.dumps(v)
 
 
@@ -183,6 +192,20 @@ def render_top(case, sig, omit):
         init_cfg, pre = render(case["sigs"]["__init__"], case["init_assign"], split=True)
         top = {**init_cfg, **top}
     return ["--config", json.dumps(top)] + pre + list(select) + rest
+
+
+def render_select(case, sig, omit):
+    """the whole command line is one --config that selects the component through the 'subcommand' keys and holds every given value"""
+    def everything(sg, asg, om=None):
+        return {n: v for n, v in asg["given"].items() if n != om}
+
+    kind, select = case["kind"], case["select"]
+    top = {"subcommand": select[-1], select[-1]: everything(sig, case["assign"], omit)}
+    for name in reversed(select[:-1]):
+        top = {"subcommand": name, name: top}
+    if kind == "class":
+        top = {**everything(case["sigs"]["__init__"], case["init_assign"]), **top}
+    return ["--config", json.dumps(top)]
 
 
 def expected_call(sig, asg):
@@ -231,6 +254,9 @@ def run_case(ctx, case):
         if case.get("config_level") == "top":
             argv = render_top(case, sig, omit)
             ctx.cls("shared-top-level-config")
+        elif case.get("config_level") == "select":
+            argv = render_select(case, sig, omit)
+            ctx.cls("component-selected-by-the-config-alone")
         out, err = io.StringIO(), io.StringIO()
         try:
             with contextlib.redirect_stdout(out), contextlib.redirect_stderr(err):
@@ -245,7 +271,7 @@ def run_case(ctx, case):
         ctx.cls("outcome:" + outcome.split(":")[0])
         nparams = len(sig)
         hows = set(case["assign"]["how"].values())
-        if (nparams >= 3 and "config" in hows and any(p[0] not in case["assign"]["given"] for p in sig)) or kind in ("class", "dict") or case.get("config_level") == "top":
+        if (nparams >= 3 and "config" in hows and any(p[0] not in case["assign"]["given"] for p in sig)) or kind in ("class", "dict") or case.get("config_level") in ("top", "select"):
             ctx.mark_nontrivial()
         if omit:
             ctx.cls("required-parameter-omitted")
